@@ -23,6 +23,11 @@ type FuncResult struct {
 	Notes      []string
 	Blocks     int
 	Instrs     int
+	Replay     *ReplayInfo
+	MapKey     string
+	gen        *Gen
+	StaticPrelude string
+	StrLits    map[string]string
 }
 
 func (w *Workspace) newGen(fn *ssa.Function, ct *Contract) *Gen {
@@ -75,6 +80,14 @@ func (w *Workspace) verifyFunction(key string, ct *Contract) (res *FuncResult) {
 	}
 	res.Obls = g.obls
 	res.Prelude = g.assemble()
+	res.StaticPrelude = g.assembleStatic()
+	res.Replay = g.replay
+	res.MapKey = key
+	res.gen = g
+	res.StrLits = map[string]string{}
+	for k, v := range strLits {
+		res.StrLits[k] = v
+	}
 	res.Trusted = keys(g.trusted)
 	res.Unmodelled = keys(g.unmod)
 	res.Assumes = keys(g.assumes)
@@ -182,7 +195,8 @@ func (g *Gen) function(fn *ssa.Function, ct *Contract) {
 	bindResults(post, fn.Signature, resVal)
 	for _, e := range ct.Ensures {
 		t := post.trBool(e.Expr)
-		g.oblige("ensures", e.Label, clauseProps(ct, e), fn, exitReach, t, e.Src, fn.Pos())
+		o := g.oblige("ensures", e.Label, clauseProps(ct, e), fn, exitReach, t, e.Src, fn.Pos())
+		g.outsideKnown(o, post, fn)
 	}
 	for _, e := range ct.Canary {
 		t := post.trBool(e.Expr)
@@ -193,6 +207,7 @@ func (g *Gen) function(fn *ssa.Function, ct *Contract) {
 	if !ct.ModAll {
 		g.frameObligations(fn, ct, env, exit, entrySnapshot, exitReach, args)
 	}
+	g.replay = g.buildReplay(fn, ct, args)
 	// cover: the precondition is satisfiable and the function can return
 	cv := g.oblige("cover", "exit_reachable", ct.Props, fn, exitReach, "false", "requires is satisfiable and some return is reachable", fn.Pos())
 	cv.ExpectSat = true
@@ -300,16 +315,26 @@ func (g *Gen) frameObligations(fn *ssa.Function, ct *Contract, env *Env, exit, e
 	}
 }
 
-// assemble produces the SMT text common to all obligations of the function.
-func (g *Gen) assemble() string {
+func (g *Gen) assembleStatic() string {
 	var b strings.Builder
 	b.WriteString(basePrelude(g.concrete))
 	b.WriteString(g.sorts.declarations())
 	b.WriteString(g.theoryText())
+	return b.String()
+}
+
+// assemble produces the SMT text common to all obligations of the function.
+func (g *Gen) assemble() string {
+	var b strings.Builder
+	b.WriteString(g.assembleStatic())
 	if !g.concrete && len(strLitOrder) > 0 {
 		var names []string
 		for _, v := range strLitOrder {
 			n := strLits[v]
+			if n == "str_empty" {
+				names = append(names, n)
+				continue
+			}
 			fmt.Fprintf(&b, "(declare-const %s Str) ; %q\n", n, v)
 			fmt.Fprintf(&b, "(assert (= (str_len %s) %d))\n", n, len(v))
 			names = append(names, n)
@@ -354,4 +379,25 @@ func basePrelude(concrete bool) string {
 		b.WriteString("(assert (forall ((s Str)) (! (=> (= (str_len s) 0) (= s str_empty)) :pattern ((str_len s)))))\n")
 	}
 	return b.String()
+}
+
+// outsideKnown: an obligation listed as a known finding with a class
+// predicate is additionally proved on the complement of that class, so that a
+// different violation of the same obligation is still reported.
+func (g *Gen) outsideKnown(o *Obligation, env *Env, fn *ssa.Function) {
+	if g.w.known == nil {
+		return
+	}
+	for _, k := range g.w.known.Findings {
+		if k.Obligation != o.Name || k.Class == "" {
+			continue
+		}
+		ex, err := parseSpecExpr(k.Class)
+		if err != nil {
+			g.fail("known_findings.json: class of %s: %v", k.Obligation, err)
+		}
+		cls := env.trBool(ex)
+		n := g.oblige(o.Kind, o.Label+"!outside_known", o.Props, fn, o.Guard, or(cls, o.Goal), "outside the known-finding class: "+k.Class+" || "+o.GoalSrc, token.NoPos)
+		n.Name = o.Name + "!outside_known"
+	}
 }
